@@ -54,20 +54,28 @@ def c19_1(rep, O, ix):
     rep.rule(R, "no collection whose iteration order depends on string hashing reaches an order-sensitive sink (indexing, positional call/splat, zip, text rendering, "
                 "loop-carried dependency, break/return in a loop, escaping materialisation) in the handwritten package", floor=6)
     nsrc = 0
+    pf = ix.funcs.get(PAIR_CLASS + ".__init__")
+    pair_cls = pf.cls if pf is not None else PAIR_CLASS           # the class may live in another module and be re-exported
     for q in sorted(O.findings):
         f = ix.funcs[q]
         fs = O.findings[q]
         for (line, text) in O.sources.get(q, []):
             nsrc += 1
-            hits = [x for x in fs if x.taint.src == text and x.severity == "sink" and not (f.cls == PAIR_CLASS and f.name == "__init__")]
+            hits = [x for x in fs if x.taint.src == text and x.severity == "sink" and not (f.cls == pair_cls and f.name == "__init__")]
             if not hits:
                 rep.ok(R, "%s:%d %s" % ("blackbird_python/blackbird/%s.py" % f.mod, line, q), "unordered source `%s` reaches no order-sensitive sink" % text[:100])
         for x in fs:
             site = ix.site(f, x.node)
             if x.severity == "sink":
-                if f.cls == PAIR_CLASS and f.name == "__init__":
+                if f.cls == pair_cls and f.name == "__init__":
                     continue          # decided by the pairing rule
                 rep.bad(R, site, "`%s` does not expose a hash-seed dependent order" % x.text, "%s; source: %s" % (x.sink, x.taint.src), key="%s|%s" % (q, x.text))
+            elif x.severity == "sink-int" and x.sink.startswith(("zip pairs", "enumerate() numbers", "indexing / slicing", "positional", "position lookup", "next() takes", "set.pop()")):
+                # the set's elements are integers, so its order does not vary with the hash seed - but the property also asks that the
+                # content be independent "of the order in which sets of ... modes happen to be iterated": pairing / numbering / picking
+                # elements by that order makes the content a function of how the set was built
+                rep.bad(R, site, "`%s` does not pair, number or pick the elements of a set by its iteration order" % x.text, "%s; source: %s (integer elements: the order depends on how the set "
+                        "was built, not on the seed)" % (x.sink, x.taint.src), key="%s|%s" % (q, x.text))
             elif x.severity == "sink-int":
                 rep.info(R, site, "`%s`: order of an int-element set becomes observable (seed independent; decided under C07/C16 where value order matters)" % x.text, x.sink)
             else:
@@ -78,8 +86,8 @@ def c19_1(rep, O, ix):
 def pairing(rep, O, ix, R):
     rep.rule(R, "the single documented exception - RegRefTransform's register order - occurs only in its paired form: func and regrefs derive from one materialisation of expr.free_symbols, "
                 "in the same order, and are assigned nowhere else", floor=3)
-    q = PAIR_CLASS + ".__init__"
-    f = ix.func(q)
+    f = ix.func(PAIR_CLASS + ".__init__")
+    q = f.qual
     fs = [x for x in O.findings.get(q, []) if x.severity == "sink"]
     stores = {}
     for n in ast.walk(f.node):
